@@ -134,11 +134,11 @@ PROPS = {
         "quick_s": 12, "thorough_s": 300,
         "level": "exploration",
         "rule": ("one evaluation = one simulated run: TCP (server + 1-2 clients, IPv4 or IPv6 loopback, 1 B-32 KiB position-coded streams in chunks of 1 B-8 KiB, receive "
-                 "buffers of 1 B-8 KiB, socket buffers 16 B-64 KiB, blocking and non-blocking ends mixed, optional early quit of the receiver) or UDP (2-3 bound sockets "
+                 "buffers of 1 B-8 KiB, socket buffers 16 B-64 KiB, blocking and non-blocking ends mixed, optional early quit of the receiver), a request / half-close / response / close exchange with an optionally slow reader, or UDP (2-3 bound sockets "
                  "exchanging numbered datagrams of 4-2000 B, short receive buffers) with EINTR, EAGAIN-after-poll, short send/recv, delivery delay, late timers and "
                  "(UDP) loss/duplication/reordering injected into the simulated system calls; distinct = distinct event-log hash; non-trivial = more than one context switch or one fired fault"),
         "probes": ["data.partial_send_reported", "data.nonblocking_send_waited", "data.nonblocking_receive_waited", "data.eof_seen", "data.receiver_quit_early",
-                   "data.send_error_after_peer_gone", "data.nonblocking_connect", "data.datagram_received", "data.stream_1k_plus", "sock.short_send", "sock.eagain_after_poll",
+                   "data.send_error_after_peer_gone", "data.nonblocking_connect", "data.datagram_received", "data.stream_1k_plus", "data.half_close", "data.reqresp_done", "sock.short_send", "sock.eagain_after_poll",
                    "sock.send_buffer_full", "sock.epipe", "sock.dgram_truncated", "eintr.send", "eintr.recv", "eintr.poll", "eintr.accept", "eintr.recvfrom", "eintr.sendto",
                    "eintr.connect_before_start", "eintr.connect_after_start"],
         "components": {"real": ["psocket.c", "psocketaddress.c", "perror.c", "psysclose-unix.c", "pmem.c", "pmain.c"], "stub": STUB_NET + STUB_PTHREAD},
@@ -157,7 +157,7 @@ PROPS = {
                  "calls after close, close again, free; every call is classified by the socket state machine model; distinct = distinct event-log hash; "
                  "non-trivial = more than one context switch or one fired fault"),
         "probes": ["state.timed_out_on_time", "state.long_timeout_cost_nothing", "state.nonblocking_would_block", "state.blocking_waited_for_peer", "state.io_on_closed",
-                   "state.close_idempotent", "state.connect_in_progress", "state.connect_refused", "state.connect_stalled_timed_out", "state.accepted", "state.backlog_ignored_after_listen"],
+                   "state.close_idempotent", "state.send_path_full", "state.connect_in_progress", "state.connect_refused", "state.connect_stalled_timed_out", "state.accepted", "state.backlog_ignored_after_listen"],
         "components": {"real": ["psocket.c", "psocketaddress.c", "perror.c", "psysclose-unix.c", "pmem.c", "pmain.c"], "stub": STUB_NET + STUB_PTHREAD},
         "assumptions": COMMON_ASSUME + ["time-outs are compared on the simulated clock (exact); timers may fire late, never early",
                                         "the scripted peer talks to the simulated kernel directly (raw calls), not through the library"],
